@@ -145,8 +145,13 @@ func (g *GlobalTransactionManager) Rollback(ctx context.Context, gtr *GlobalTran
 		bf.Wait()
 	}
 
-	if err != nil && bf.Err() != nil {
-		lastErr := errors.Wrap(err, bf.Err().Error())
+	if err == nil {
+		// no request failed, but the retry budget or the caller's context may have ended
+		// before (or while) the request was sent
+		err = bf.Err()
+	}
+	if err != nil {
+		lastErr := errors.Wrap(err, "send global rollback request failed")
 		log.Errorf("GlobalRollbackRequest rollback failed, xid %s, error %v", gtr.Xid, lastErr)
 		return lastErr
 	}
